@@ -168,7 +168,17 @@ impl<T> DualLinkedList<T> {
 
 impl<T> Drop for DualLinkedList<T> {
     fn drop(&mut self) {
-        while self.pop_min().is_some() {}
+        // Keeps releasing the remaining events should the destructor
+        // of a payload unwind (same as the std collections).
+        struct Rest<'a, T>(&'a mut DualLinkedList<T>);
+        impl<T> Drop for Rest<'_, T> {
+            fn drop(&mut self) {
+                while self.0.pop_min().is_some() {}
+            }
+        }
+
+        let rest = Rest(self);
+        while rest.0.pop_min().is_some() {}
     }
 }
 
